@@ -11,7 +11,7 @@ import (
 func registerMore(add func(PropDef)) {
 	add(PropDef{ID: "C09", Suites: func() []Suite { return suiteC09(nil) },
 		Rule: "templates of all node kinds (nesting <= 4, 35% variable slots, no ellipsis) x assignments (each variable skipped with probability 1/4, typed Go values of every accepted kind, 25% of the cases with out-of-domain or wrongly typed values, unknown keys) x splits of the assignment into 2-4 successive fills; oracles on the real code: filled = directly constructed (values substituted in the template description and built through the factories), several steps = one step; every operation also compared with the Lean model; messages: fill + producers in both orders vs NewHSMSDataMessage"})
-	add(PropDef{ID: "C04", Level: "other", Suites: func() []Suite { return suiteC04(nil) },
+	add(PropDef{ID: "C04", Level: "proof", Suites: func() []Suite { return suiteC04(nil) },
 		Rule: "messages expressible in SML (all header variants, names incl. non-ASCII and invalid UTF-8, item trees with values, variables, length-constrained ASCII variables, nested ellipses) built through the factories, printed, re-parsed: one message, no diagnostics, same fields/variables/printed form, same bytes once completed; every ASCII character 0..127 in four string contexts; accepted random-layout texts: printed form is a fixed point; every text also compared with the Lean lexer+parser model"})
 	add(PropDef{ID: "C05", Suites: func() []Suite { return suiteC05(nil) },
 		Rule: "texts rendered from item descriptions with varied literal forms (decimal/hex/octal/leading-0 octal/binary with sign and letter case, floats as e/f/g/exact 40-digit forms, strings split into quoted runs and character codes): parsed values must equal the described values (built independently through the factories); one unrepresentable literal (out of range, wrong syntax, wrong type, non-ASCII) in each of three positions for all item types: at least one error and no message; results also compared with the Lean model (decisive on messages and error kinds)"})
